@@ -60,7 +60,8 @@ CHECKS['C15'] = dict(
          'operation as crash point of one evaluation (with/without an earlier file), restart and bootstrap scenarios, '
          'names with spaces and "=", and ALL parameter points, z3 shows that the iteration file is absent or complete, '
          'holds the best finite-derivative evaluation so far, that the library restart code loads exactly that point by '
-         'name and that a later estimation starts from it.',
+         'name and that a later estimation starts from it. Crash scenarios are explored with writes durable as issued and with '
+         'writes held in the process buffer until flush/close.',
     note='Trusted: POSIX file semantics of verif/memfs.py (truncate at open, ordered durable writes, atomic replace), '
          'isfinite oracle, optimiser stub, engine contract. Outside: histories longer than 3, bit-exact float text '
          'formatting (values travel through the file as tokens).',
